@@ -13,24 +13,24 @@ import (
 // Cfg selects the generated language fragment. Flags named Gate* switch off exactly the
 // construct that triggers an open known finding (see DESIGN.md §4); they never change an oracle.
 type Cfg struct {
-	MaxFns      int
-	MaxStmts    int // per block
-	MaxDepth    int // expression depth
-	BlockDepth  int // statement nesting depth
-	Floats      bool
-	Strings     bool
-	Unicode     bool // non-ASCII string contents
-	Objects     bool
-	Options     bool
-	Lambdas     bool
-	Singletons  bool
-	Triggers    bool
-	Fatal       bool // deliberately failing operations (div by zero, index out of range)
-	Throws      bool
-	Casts       bool
-	Members     bool
-	HostFns     bool
-	Globals     bool
+	MaxFns     int
+	MaxStmts   int // per block
+	MaxDepth   int // expression depth
+	BlockDepth int // statement nesting depth
+	Floats     bool
+	Strings    bool
+	Unicode    bool // non-ASCII string contents
+	Objects    bool
+	Options    bool
+	Lambdas    bool
+	Singletons bool
+	Triggers   bool
+	Fatal      bool // deliberately failing operations (div by zero, index out of range)
+	Throws     bool
+	Casts      bool
+	Members    bool
+	HostFns    bool
+	Globals    bool
 	// hostile constructs (no reference semantics): wild mode
 	Wild bool
 	// PrintObjects allows objects (any number of fields) as print arguments and to_string/to_json
@@ -58,10 +58,10 @@ func ModelCfg() Cfg {
 }
 
 type varInfo struct {
-	name   string
-	t      hs.Type
+	name    string
+	t       hs.Type
 	noWrite bool // loop variables, singleton params, catch vars
-	global bool
+	global  bool
 }
 
 type fnInfo struct {
@@ -73,23 +73,23 @@ type fnInfo struct {
 }
 
 type G struct {
-	t      *rapid.T
-	c      Cfg
-	scopes [][]varInfo
-	fns    []fnInfo // callable (already generated) functions
-	nvar   int
-	inLoop int
-	retT   *hs.Type // return type of the current function (nil in lambdas → no return stmt)
-	inFn   string
-	mod    *hs.Module
-	objTs  []hs.Type
+	t        *rapid.T
+	c        Cfg
+	scopes   [][]varInfo
+	fns      []fnInfo // callable (already generated) functions
+	nvar     int
+	inLoop   int
+	retT     *hs.Type // return type of the current function (nil in lambdas → no return stmt)
+	inFn     string
+	mod      *hs.Module
+	objTs    []hs.Type
 	usesHost map[string]bool
 	usesTrig bool
-	Feat   map[string]int
-	budget int // remaining node budget for the current function
-	singles []hs.Singleton
+	Feat     map[string]int
+	budget   int // remaining node budget for the current function
+	singles  []hs.Singleton
 	hasEvent bool
-	inExpr  int // >0 while generating statements of a block that is an operand of an expression
+	inExpr   int            // >0 while generating statements of a block that is an operand of an expression
 	inLambda int            // >0 while generating the body of a function literal
 	shadowFn map[string]int // functions whose name is currently taken by a local (see callExpr)
 }
@@ -674,6 +674,29 @@ func (g *G) boolExpr(d int) hs.Expr {
 	case 8:
 		if g.c.Casts {
 			return hs.Cast{X: g.expr(hs.TInt, d-1), T: hs.TBool}
+		}
+	case 9:
+		// a guard: the left operand decides, the right operand would trap (division / remainder by zero, negative
+		// shift) and is free of calls, indices and members - "no effect" is not "cannot fail"
+		if g.chance("guardedTrap", 60) {
+			g.feat("guarded-trap")
+			ops := []string{"/", "<<", ">>", "/"}
+			if !g.c.off("mod-zero") {
+				ops = append(ops, "%")
+			}
+			op := ops[g.pick("trapOp", len(ops))]
+			var bad hs.Expr = hs.IntLit{V: 0}
+			if op == "<<" || op == ">>" {
+				bad = hs.Infix{Op: "-", L: hs.IntLit{V: 0}, R: hs.IntLit{V: int64(1 + g.pick("negShift", 5))}, T: hs.TInt}
+			} else if g.chance("zeroBySubtraction", 40) {
+				k := int64(g.pick("zeroK", 9))
+				bad = hs.Infix{Op: "-", L: hs.IntLit{V: k}, R: hs.IntLit{V: k}, T: hs.TInt}
+			}
+			trap := hs.Infix{Op: []string{">", "==", "<=", "!="}[g.pick("trapCmp", 4)], L: hs.Infix{Op: op, L: g.leaf(hs.TInt), R: bad, T: hs.TInt}, R: g.leaf(hs.TInt), T: hs.TBool}
+			if g.chance("guardOr", 50) {
+				return hs.Infix{Op: "||", L: hs.Infix{Op: "==", L: hs.IntLit{V: 0}, R: hs.IntLit{V: 0}, T: hs.TBool}, R: trap, T: hs.TBool}
+			}
+			return hs.Infix{Op: "&&", L: hs.Infix{Op: "!=", L: hs.IntLit{V: 0}, R: hs.IntLit{V: 0}, T: hs.TBool}, R: trap, T: hs.TBool}
 		}
 	}
 	return g.leaf(hs.TBool)
